@@ -251,6 +251,49 @@ func HarnessC16Matcher(L int) {
 	verifReach("linted")
 }
 
+// HarnessC16MatcherLines: two diagnostics (the first echoes an unknown key of
+// L printable bytes) printed by PrettyPrint without source — what -oneline
+// writes — with colours off or on (`actionlint -color` is what the usage
+// documentation pairs with the problem matcher): every header line is parsed
+// back by the shipped pattern to the same file, line, column, message and kind.
+func HarnessC16MatcherLines(L int) {
+	K := verifSymString("key", L)
+	for i := 0; i < L; i++ {
+		verifAssumeNote(verifAnd(0x20 <= K[i], K[i] <= 0x7e), "C16 matcher: the echoed key is printable ASCII")
+	}
+	verifAssumeNote(K != "on" && K != "jobs" && K != "name" && K != "env", "C16 matcher: the key is not a known one (short ones listed)")
+	colour := verifChoose("colour", 2) == 1
+	s := yScalar
+	doc := yDoc(yMap(s("on"), s("push"), s(K), s("v"), s("jobs"), yMap(s("j"), yMap(s("runs-on"), s("ubuntu-latest"), s("nope"), s("x"), s("steps"), ySeq(yMap(s("run"), s("echo")))))))
+	verifPlace(doc, 1, 0)
+	p := &parser{}
+	p.parse(doc)
+	verifCheck(len(p.errors) == 2, "expected-two-diagnostics")
+	for _, e := range p.errors {
+		e.Filepath = "dir/w.yml"
+	}
+	lines := verifPrintedLines(p.errors, colour)
+	re := regexp.MustCompile(verifMatcherRegexp)
+	n := 0
+	for _, ln := range lines {
+		m := re.FindStringSubmatch(ln)
+		if m == nil {
+			continue // not a header line (with colours on the very last line is a lone reset sequence)
+		}
+		verifCheck(n < len(p.errors), "more-header-lines-than-diagnostics")
+		if n >= len(p.errors) {
+			break
+		}
+		e := p.errors[n]
+		n++
+		verifReach("diagnostic")
+		verifCheck(m[1] == e.Filepath && m[2] == strconv.Itoa(e.Line) && m[3] == strconv.Itoa(e.Column), "problem-matcher-parses-back-another-position")
+		verifCheck(m[4] == e.Message && m[5] == e.Kind, "problem-matcher-parses-back-another-message-or-kind")
+	}
+	verifCheck(n == len(p.errors), "header-not-matched-by-the-problem-matcher")
+	verifReach("linted")
+}
+
 func verifC16NoFile(name string) ([]byte, error) {
 	return nil, &verifC10Err{"open " + name + ": no such file or directory"}
 }
@@ -260,9 +303,9 @@ func verifC16NoFile(name string) ([]byte, error) {
 // echoes the path) inside a project.
 func HarnessC16CallPath(L int) {
 	if verifIsNative() {
-		verifReach("linted")
-		verifReach("diagnostic")
-		return // needs a project on disk whose file name contains arbitrary bytes; the symbolic run uses a virtual one
+		// needs a project on disk whose file name contains arbitrary bytes; the symbolic run uses a virtual one
+		verifAssumeNote(false, "C16 call path: no native route for sampled inputs (violations are replayed through the message check only)")
+		return
 	}
 	path := "./" + verifSymString("path", L) + ".yml"
 	verifOverride("os.ReadFile", verifC16NoFile)
@@ -289,6 +332,36 @@ func HarnessC16Event(L int) {
 	doc := yDoc(yMap(s("on"), yMap(s(K), yMap(s(filter), ySeq(s("main")))), s("jobs"), yMap(s("j"), yMap(s("runs-on"), s("ubuntu-latest"), s("steps"), ySeq(yMap(s("run"), s("echo")))))))
 	verifPlace(doc, 1, 0)
 	errs := verifLintNode(doc, verifRulesNoDeprecated())
+	for _, e := range errs {
+		verifReach("diagnostic")
+		verifCheck(verifNot(verifMsgHasRawNewline(e.Message)), "raw-line-break-in-message")
+	}
+	verifReach("linted")
+}
+
+// HarnessC16MatrixEcho: matrix diagnostics echo whole values. A row has two
+// equal mapping values whose key (or value) is L arbitrary bytes, and an
+// exclude entry that matches nothing carries such a mapping too: both the
+// duplicate and the exclude diagnostics print the mapping; no raw line break
+// may reach the message.
+func HarnessC16MatrixEcho(L int) {
+	K := verifSymString("text", L)
+	s := yScalar
+	mk := func() *yaml.Node {
+		if verifChoose("where", 2) == 1 {
+			return yMap(s("k"), s(K))
+		}
+		return yMap(s(K), s("v"))
+	}
+	var matrix *yaml.Node
+	if verifChoose("diagnostic", 2) == 1 {
+		matrix = yMap(s("os"), ySeq(s("a"), s("b")), s("exclude"), ySeq(yMap(s("os"), mk())))
+	} else {
+		matrix = yMap(s("os"), ySeq(mk(), mk()))
+	}
+	doc := yDoc(yMap(s("on"), s("push"), s("jobs"), yMap(s("j"), yMap(s("runs-on"), s("ubuntu-latest"), s("strategy"), yMap(s("matrix"), matrix), s("steps"), ySeq(yMap(s("run"), s("echo")))))))
+	verifPlace(doc, 1, 0)
+	errs := verifLintNode(doc, []Rule{NewRuleMatrix()})
 	for _, e := range errs {
 		verifReach("diagnostic")
 		verifCheck(verifNot(verifMsgHasRawNewline(e.Message)), "raw-line-break-in-message")
